@@ -20,3 +20,33 @@ pub fn sched_point(label: &'static str) {
         handler(label);
     }
 }
+
+/// Takes `mutex` the way `Mutex::lock` does, but makes the waiting visible to a controlled
+/// scheduler: while the lock is held by another logical thread the caller yields at a
+/// pre-emption point whose label starts with `blocked:` instead of blocking the OS thread.
+/// Without an installed handler this is `mutex.lock()`.
+pub fn lock_visible<'a, T>(
+    mutex: &'a std::sync::Mutex<T>,
+    label: &'static str,
+) -> std::sync::LockResult<std::sync::MutexGuard<'a, T>> {
+    use std::sync::TryLockError;
+    let Some(handler) = HANDLER.get() else {
+        return mutex.lock();
+    };
+    let mut spins = 0u32;
+    loop {
+        match mutex.try_lock() {
+            Ok(guard) => return Ok(guard),
+            Err(TryLockError::Poisoned(e)) => return Err(e),
+            Err(TryLockError::WouldBlock) => {
+                spins += 1;
+                // threads the handler does not schedule fall back to a real wait
+                if spins > 10_000 {
+                    return mutex.lock();
+                }
+                handler(label);
+                std::thread::yield_now();
+            }
+        }
+    }
+}
